@@ -468,6 +468,17 @@ def run(ctx: Ctx) -> Outcome:
     for old_, new_ in c01_anchor.RENAMED.items():
         for a_ in sorted(by_el.get(new_, ())):
             outside.append(old_ + str(a_))
+    # a mass number attached to something that is not the SYMBOL: element name + A ('helium4', 'Krypton84'), atomic number + A
+    # ('2_4' is covered above; '24' IS chromium), name of the nuclide alias + A ('D2'); these are malformed labels
+    name_of = {sym: nm for _, sym, nm in elements}
+    for sym_, As in by_el.items():
+        nm_ = name_of.get(sym_)
+        if nm_:
+            picks = {min(As), max(As), exp[sym_][3]} | set(rng.sample(sorted(As), min(len(As), 2)))
+            for a_ in sorted(picks):
+                outside.append(mixed(rng, nm_) + str(a_))
+            outside.append(nm_.lower() + str(exp[sym_][3]))
+    outside += ["D2", "T3", "d2", "dummy0", "Dummy0"]
     # decimal spellings of valid atomic numbers
     outside += [f"{z}.0" for z in range(0, 118, 7)] + [f"{z}." for z in (1, 2, 36)]
     known = {s.lower() for s in exp} | {n.lower() for _, _, n in elements}
